@@ -340,11 +340,26 @@ def m_concat(E, st, fr, bi, callee, args, dest_ty):
 
 def m_slice_iter(E, st, fr, bi, callee, args, dest_ty):
     p = args[0]
+    if type(p) is Md and p.kind == "iter" and p.d.get("k") == "slice":
+        return ret1(p, st)            # a chunk of <[T]>::chunks
     while type(p) is Pt and p.key is not None and type(E.load(st, p.key, p.proj)) is Pt:
         p = E.load(st, p.key, p.proj)
     s = as_seq(E, st, p)
     mut = "iter_mut" in callee.name or "IterMut" in E.prog.ty(dest_ty).s
     return ret1(Md("iter", {"k": "slice", "src": p, "pos": usize(E, st, 0), "end": s.len, "mut": mut, "byref": True}), st)
+
+
+def m_slice_chunks(E, st, fr, bi, callee, args, dest_ty):
+    """<[T]>::chunks(size): chunk items are modelled as sub-iterators over the same slice (what `.iter()` on
+    the chunk yields); `chunk.iter()` / `chunk.len()` on such an item are accepted by m_slice_iter / m_seq_len"""
+    p = args[0]
+    while type(p) is Pt and p.key is not None and type(E.load(st, p.key, p.proj)) is Pt:
+        p = E.load(st, p.key, p.proj)
+    s = as_seq(E, st, p)
+    if st.lo(args[1]) < 1:
+        obligation(E, fr, bi, "panic", False, "chunk size may be zero", "chunks")
+    inner = Md("iter", {"k": "slice", "src": p, "pos": usize(E, st, 0), "end": s.len, "mut": False, "byref": True})
+    return ret1(Md("iter", {"k": "chunks", "inner": inner, "size": args[1]}), st)
 
 
 def m_vec_into_iter(E, st, fr, bi, callee, args, dest_ty):
@@ -998,9 +1013,35 @@ def m_iter_anyall(E, st, fr, bi, callee, args, dest_ty):
     if empty_certain:
         return ret1(E.mkbool(st, 1 if is_all else 0), st)
     mp = Md("iter", {"k": "map", "inner": it, "f": args[1], "fty": fty})
-    with pinned(E.ctx, n, it):
-        r = it_elem(E, st, fr, bi, mp)
     val = None
+    c = st.const(n)
+    r = None
+    if c is not None and 1 <= c <= 8 and E.ctx.hooks.get("exact_collect_max", 0) >= c and E.ctx.hooks.get("exact_anyall"):
+        # exact small case (opt-in): evaluate the predicate element by element, in order, on a scratch state
+        s = st.copy()
+        cur = mp
+        res = []
+        try:
+            E.ctx.quiet += 1
+            for _ in range(c):
+                outs = [o for o in it_next(E, s, fr, bi, cur) if o[0] is not None]
+                if len(outs) != 1 or type(outs[0][0]) is not I:
+                    res = None
+                    break
+                x, cur, s = outs[0]
+                res.append(s.itv[x.vid])
+        except (Unsupported, Diverge):
+            res = None
+        finally:
+            E.ctx.quiet -= 1
+        if res is not None:
+            if is_all:
+                val = 0 if any(v == (0, 0) for v in res) else (1 if all(v == (1, 1) for v in res) else None)
+            else:
+                val = 1 if any(v == (1, 1) for v in res) else (0 if all(v == (0, 0) for v in res) else None)
+    if val is None:
+        with pinned(E.ctx, n, it):
+            r = it_elem(E, st, fr, bi, mp)
     if type(r) is I:
         lo, hi = st.itv[r.vid]
         if is_all and lo == hi == 1:
@@ -1590,6 +1631,7 @@ def build(ctx):
     A(r"^(core|std)::iter::range::<impl std::iter::Iterator for std::ops::RangeInclusive<.*>>::next$", m_range_inclusive_next)
     A(r"^<std::(slice|vec|iter|array)::.* as std::iter::Iterator>::next$", m_iter_next)
     A(r"^<bit_vec::Iter<.*> as std::iter::Iterator>::next$", m_iter_next)
+    A(r"^core::slice::<impl \[.*\]>::chunks$", m_slice_chunks)
     A(r"^<.* as itertools::Itertools>::chunks$", m_iter_adapt("chunks"))
     A(r"^itertools::Itertools::chunks$", m_iter_adapt("chunks"))
     A(r"^<&itertools::IntoChunks<.*> as std::iter::IntoIterator>::into_iter$", m_deref_model)
